@@ -115,3 +115,48 @@ Theorem pre_one_word_lines :
 Proof. exact PreTags.pre_one_word_lines. Qed.
 Print Assumptions pre_one_word_lines.
 
+
+(* exactly when a block is too narrow (Proofs/PreNarrowIff.v): iff some non-white-space character is
+   wider than the width - for every split of the text into tagged calls, in every white-space
+   mode; otherwise the block is cut into pieces no wider than the width, nothing lost *)
+From H2T Require Import Base Tagged Wrap Sub Css Dom Render Api CssParse Proofs.CssTotal Proofs.WrapInv Proofs.RenderWidth Proofs.Conserve Proofs.Footnotes Proofs.AnnBalance Proofs.RenderConserve Proofs.OptionRel Proofs.Compose Proofs.RenderTotal Proofs.FragStream Proofs.SimRel Proofs.Prune Proofs.PreCut Proofs.PreNarrowIff.
+
+Theorem run_fits_never_narrow :
+  forall (W : N) (pad : bool) (cs : list call),
+       1 <= W ->
+       Forall (call_fits W) cs ->
+       exists ls : list tline,
+         run W pad false cs = Ok ls /\
+         (forall l : tline, In l ls -> tlen_ l = tl_width_raw l /\ tl_width_raw l <= W).
+Proof. exact PreNarrowIff.run_fits_never_narrow. Qed.
+Print Assumptions run_fits_never_narrow.
+
+Theorem pre_fits_never_narrow :
+  forall (W : N) (src : list chr) (t1 t2 : tag),
+       1 <= W ->
+       Forall (chr_fits W) src ->
+       exists ls : list text,
+         PreProof.pre_lines W src t1 t2 = Ok ls /\
+         (forall l : text, In l ls -> swidth l <= W) /\
+         filter (fun c : chr => negb (ws c)) (concat ls) = kept src.
+Proof. exact PreNarrowIff.pre_fits_never_narrow. Qed.
+Print Assumptions pre_fits_never_narrow.
+
+Theorem run_wide_too_narrow :
+  forall (W : N) (pad : bool) (cs : list call),
+       1 <= W -> Exists (call_wide W) cs -> run W pad false cs = TooNarrow.
+Proof. exact PreNarrowIff.run_wide_too_narrow. Qed.
+Print Assumptions run_wide_too_narrow.
+
+Theorem run_too_narrow_iff :
+  forall (W : N) (pad : bool) (cs : list call),
+       1 <= W -> run W pad false cs = TooNarrow <-> Exists (call_wide W) cs.
+Proof. exact PreNarrowIff.run_too_narrow_iff. Qed.
+Print Assumptions run_too_narrow_iff.
+
+Theorem pre_too_narrow_iff :
+  forall (W : N) (src : text) (t1 t2 : tag),
+       1 <= W -> PreProof.pre_lines W src t1 t2 = TooNarrow <-> Exists (wide W) src.
+Proof. exact PreNarrowIff.pre_too_narrow_iff. Qed.
+Print Assumptions pre_too_narrow_iff.
+
